@@ -272,6 +272,9 @@ func (g *Gen) execInstr(st *State, in ssa.Instruction) {
 					continue
 				}
 				g.calleeUse[cs]++
+				if len(cs.Sets) > 0 {
+					g.unsupported("set clauses are not supported at mapupdate pseudo-callees")
+				}
 				binds := map[string]Val{}
 				if len(cs.Params) > 0 {
 					binds[cs.Params[0]] = g.value(st, x.Key)
@@ -323,6 +326,20 @@ func (g *Gen) execInstr(st *State, in ssa.Instruction) {
 						g.trustedUsed["map data invariant assumed at lookup "+name+": "+c.Src] = true
 					}
 				}
+				// ghost updates: remember what this lookup returned
+				if len(cs.Sets) > 0 {
+					newVals := map[string]Val{}
+					for _, sc := range cs.Sets {
+						newVals[sc.Name] = g.evalSpec(ctx, sc.E)
+					}
+					for n, nv := range newVals {
+						if _, ok := st.ghosts[n]; !ok {
+							g.unsupported("set of undeclared ghost " + n)
+						}
+						st.ghosts[n] = nv
+						g.noteGhostWrite(n)
+					}
+				}
 			}
 		}
 	case *ssa.Range:
@@ -357,6 +374,9 @@ func (g *Gen) execInstr(st *State, in ssa.Instruction) {
 					continue
 				}
 				g.calleeUse[cs]++
+				if len(cs.Sets) > 0 {
+					g.unsupported("set clauses are not supported at chansend pseudo-callees")
+				}
 				binds := map[string]Val{}
 				if len(cs.Params) > 0 {
 					binds[cs.Params[0]] = g.value(st, x.X)
@@ -520,6 +540,9 @@ func (g *Gen) unop(st *State, x *ssa.UnOp) Val {
 					continue
 				}
 				g.calleeUse[cs]++
+				if len(cs.Sets) > 0 {
+					g.unsupported("set clauses are not supported at chanrecv pseudo-callees")
+				}
 				var results []Val
 				if tv, ok := r.(TupleV); ok {
 					results = tv.E
